@@ -84,6 +84,15 @@ class CacheMonitor:
                             self.bad("cache:ordering:new-interval-linked",
                                      event)
                         continue
+                    if (not b.size and not nb.size
+                            and b.byte_interval is not nb.byte_interval
+                            and ka[1] + ka[2] == kb[1] + kb[2]):
+                        # two zero-sized blocks at one address in different
+                        # pieces (the second piece starts where the first
+                        # ends): the IR itself does not order them
+                        self.ctr["ordering_ties_skipped"] = self.ctr.get(
+                            "ordering_ties_skipped", 0) + 1
+                        continue
                     if (sign > 0 and kb < ka) or (sign < 0 and kb > ka):
                         self.bad("cache:ordering:not-in-address-order",
                                  f"{event}: {ka} vs neighbour {kb}")
